@@ -106,8 +106,8 @@ ODATA_FUNCTION_RETURN: Dict[str, Optional[str]] = {
 
 # parameter sorts: S string, N number, T temporal, D duration, B boolean, G geo, C collection, X any
 ODATA_FUNCTION_PARAMS: Dict[str, List[str]] = {
-    "concat": ["SC", "SC"], "contains": ["SC", "SX"], "endswith": ["SC", "SX"], "startswith": ["SC", "SX"],
-    "indexof": ["SC", "SX"], "length": ["SC"], "substring": ["SC", "N", "N"], "matchesPattern": ["S", "S"],
+    "concat": ["SC", "SC"], "contains": ["SC", "S"], "endswith": ["SC", "S"], "startswith": ["SC", "S"],
+    "indexof": ["SC", "S"], "length": ["SC"], "substring": ["SC", "N", "N"], "matchesPattern": ["S", "S"],
     "tolower": ["S"], "toupper": ["S"], "trim": ["S"],
     "year": ["T"], "month": ["T"], "day": ["T"], "hour": ["T"], "minute": ["T"], "second": ["T"],
     "fractionalseconds": ["T"], "totalseconds": ["D"], "date": ["T"], "time": ["T"], "totaloffsetminutes": ["T"],
